@@ -132,6 +132,19 @@ static void run(char* history) {
         } else { fprintf(hx_out, "HARNESS-ERROR bad op\n"); fflush(hx_out); _exit(71); }
         fprintf(hx_out, "S %d %s %u %s\n", i, name, e, det);
         fflush(hx_out);
+        {   /* identity probe: what does every small descriptor number denote now?  (fd_filestat_get only observes) */
+            U32 x;
+            char pl[600]; int n = snprintf(pl, sizeof pl, "INFO probe %d", i);
+            for (x = 3; x <= 10; x++) {
+                U32 pe;
+                memset(hx_mem.data + STAT, 0xAA, 64);
+                pe = NS(HX_P1, fd_filestat_get)(I, x, STAT);
+                if (pe == 0) n += snprintf(pl + n, sizeof pl - n, " %u:%u:%llu", x, hx_mem.data[STAT + 16], (unsigned long long)hx_u64(STAT + 8));
+                else n += snprintf(pl + n, sizeof pl - n, " %u:e%u", x, pe);
+            }
+            fprintf(hx_out, "%s\n", pl);
+            fflush(hx_out);
+        }
     }
 }
 
